@@ -284,7 +284,7 @@ class SafeConstructor(BaseConstructor):
         value = self.construct_scalar(node)
         try:
             return self.convert_yaml_float(value)
-        except (ValueError, IndexError):
+        except (ValueError, IndexError, OverflowError):
             raise ConstructorError(None, None,
                     "invalid float value: %r" % value, node.start_mark)
 
